@@ -62,6 +62,10 @@ func traverse(context Context, matchingNode *CandidateNode, operation *Operation
 
 	case AliasNode:
 		log.Debug("its an alias!")
+		if prefs, ok := operation.Preferences.(traversePreferences); ok && prefs.DontFollowAlias {
+			// e.g. a merge: the anchored node belongs to the original document and must not be written through the alias
+			return list.New(), nil
+		}
 		matchingNode = matchingNode.Alias
 		return traverse(context, matchingNode, operation)
 	default:
